@@ -5,6 +5,7 @@ read() results.  Lemmas only; the property theorems are in Props/C05.lean.
 -/
 import QsmtpModel.Lemmas.Netio
 import QsmtpModel.Spec.Lines
+import QsmtpModel.DataFraming
 namespace QsmtpModel.Netio
 open QsmtpModel
 
@@ -270,6 +271,31 @@ theorem goodLines_line (p l r : List Byte) (h : scan p = .line l r) : goodLines 
 theorem goodLines_dead (p : List Byte) (h : scan p = .dead) : goodLines p = [] := by
   unfold goodLines; simp only [canonLines, h]
 
+/-- `q` is reached from `p` by one or more skip steps of the canonical reader (no line in between) -/
+inductive Skips : List Byte → List Byte → Prop
+  | one {p r : List Byte} : scan p = .skip r → Skips p r
+  | more {p r q : List Byte} : scan p = .skip r → Skips r q → Skips p q
+
+theorem Skips.goodLines_eq {p q : List Byte} (h : Skips p q) : goodLines p = goodLines q := by
+  induction h with
+  | one h => exact goodLines_skip _ _ h
+  | more h _ ih => rw [goodLines_skip _ _ h, ih]
+
+theorem Skips.shrinks {p q : List Byte} (h : Skips p q) : q.length < p.length := by
+  induction h with
+  | one h => exact (scan_shrinks _).1 _ h
+  | more h _ ih => have := (scan_shrinks _).1 _ h; omega
+
+theorem Skips.trans {p q r : List Byte} (h1 : Skips p q) (h2 : Skips q r) : Skips p r := by
+  induction h1 with
+  | one h => exact .more h h2
+  | more h _ ih => exact .more h (ih h2)
+
+theorem Skips.first {p q : List Byte} (h : Skips p q) : ∃ r, scan p = .skip r := by
+  cases h with
+  | one h => exact ⟨_, h⟩
+  | more h _ => exact ⟨_, h⟩
+
 end QsmtpModel.Netio
 
 namespace QsmtpModel.Netio
@@ -281,7 +307,7 @@ it fits the window, then the lines of the stream are the lines of what follows t
 theorem skip_strays (n : Nat) : ∀ (j : Nat) (p : List Byte), j ≤ n → 1 ≤ j → j ≤ p.length → j ≤ win →
     (∃ e, p[j - 1]? = some e ∧ isEol e = true) →
     (∀ i, i < j → p[i]? = some CR → ∃ b, p[i + 1]? = some b ∧ b ≠ LF ∧ i + 1 < win) →
-    goodLines p = goodLines (p.drop j) := by
+    Skips p (p.drop j) := by
   induction n with
   | zero => intro j p h0 h1; omega
   | succ n ih =>
@@ -323,7 +349,7 @@ theorem skip_strays (n : Nat) : ∀ (j : Nat) (p : List Byte), j ≤ n → 1 ≤
       conv => lhs; rw [hp]
       rw [← hxl]; exact drop_split x _ e
     -- one canonical step skips to behind position k
-    have hstep : goodLines p = goodLines (p.drop (k + 1)) := by
+    have hstep : Skips p (p.drop (k + 1)) := by
       rcases eol_cases e heE with rfl | rfl
       · -- a CR: by assumption followed by a visible byte that is not LF
         have hpk : p[k]? = some CR := by rw [hp, ← hxl]; simp
@@ -336,21 +362,20 @@ theorem skip_strays (n : Nat) : ∀ (j : Nat) (p : List Byte), j ≤ n → 1 ≤
           | cons c cs => rw [hyy] at this; simp at this; exact ⟨cs, by rw [this]⟩
         obtain ⟨y', hy'⟩ := hy
         rw [hdrop, hy']
-        apply goodLines_skip
+        apply Skips.one
         have hsc := scan_cr x y' b hxn hbne (by omega)
         rw [← hy', ← hp] at hsc
         rw [hsc, hy']
       · rw [hdrop]
-        apply goodLines_skip
+        apply Skips.one
         have hsc := scan_lf x (y ++ p.drop win) hxn (by omega)
         rw [← hp] at hsc
         exact hsc
     by_cases hdone : k + 1 = j
-    · rw [hstep, hdone]
+    · rw [← hdone]; exact hstep
     · -- more strays behind: induction on the rest
       have hj' : 1 ≤ j - (k + 1) := by omega
       have hjw2 : j ≤ 1001 := hjw
-      rw [hstep]
       have := ih (j - (k + 1)) (p.drop (k + 1)) (by omega) hj' (by simp only [List.length_drop]; omega)
         (by show j - (k + 1) ≤ 1001; omega)
         ⟨ej, by
@@ -362,9 +387,10 @@ theorem skip_strays (n : Nat) : ∀ (j : Nat) (p : List Byte), j ≤ n → 1 ≤
           obtain ⟨b, hb, hbne, hbw⟩ := hcr (k + 1 + i) (by omega) hci
           have e1 : k + 1 + (i + 1) = k + 1 + i + 1 := by omega
           exact ⟨b, by rw [List.getElem?_drop, e1]; exact hb, hbne, by omega⟩)
-      rw [this, List.drop_drop]
+      rw [List.drop_drop] at this
       have e2 : k + 1 + (j - (k + 1)) = j := by omega
-      rw [e2]
+      rw [e2] at this
+      exact hstep.trans this
 
 end QsmtpModel.Netio
 
@@ -477,8 +503,7 @@ def Agrees (p : List Byte) (r : Rd × List Byte × Src) : Prop :=
   match r with
   | (.line l, inn', src') => scan p = .line l (inn' ++ src'.rest) ∧ inn'.length < win
   | (.err .econnreset, _, _) => goodLines p = []
-  | (.err _, inn', src') =>
-    goodLines p = goodLines (inn' ++ src'.rest) ∧ inn'.length < win ∧ (inn' ++ src'.rest).length < p.length
+  | (.err _, inn', src') => Skips p (inn' ++ src'.rest) ∧ inn'.length < win
   | (.die _, _, _) => goodLines p = []
 
 theorem discard_eq (buf rest : List Byte) (hlen : buf.length = win) :
@@ -515,11 +540,7 @@ theorem long_agrees (buf : List Byte) (src : Src) (hlen : buf.length = win)
     have htail : src.rest.drop (j + 1) = tail := by
       rw [hsplit, ← hpl]; exact drop_split pre tail LF
     rw [htail] at hscan
-    refine ⟨?_, hinn, ?_⟩
-    · rw [hrest]; exact goodLines_skip _ _ hscan
-    · rw [hrest]
-      have := (scan_shrinks _).1 _ hscan
-      exact this
+    exact ⟨by rw [hrest]; exact .one hscan, hinn⟩
 
 end QsmtpModel.Netio
 
@@ -567,7 +588,7 @@ theorem verdict_agrees (buf : List Byte) (src : Src) (hm : buf.length ≤ win) (
       have hp : buf ++ src.rest = x ++ LF :: (y ++ src.rest) := by rw [hb]; simp
       have hsc := scan_lf x (y ++ src.rest) hno (by omega)
       rw [← hp] at hsc
-      refine ⟨goodLines_skip _ _ hsc, ?_, (scan_shrinks _).1 _ hsc⟩
+      refine ⟨.one hsc, ?_⟩
       have : y.length < buf.length := by rw [hb]; simp; omega
       omega
   | some i =>
@@ -609,9 +630,8 @@ theorem verdict_agrees (buf : List Byte) (src : Src) (hm : buf.length ≤ win) (
         have hp : buf ++ src.rest = x ++ CR :: b :: (y' ++ src.rest) := by rw [hb]; simp
         have hsc := scan_cr x (y' ++ src.rest) b hno hbne (by omega)
         rw [← hp] at hsc
-        refine ⟨?_, by simp; omega, ?_⟩
-        · have := goodLines_skip _ _ hsc; simpa using this
-        · have := (scan_shrinks _).1 _ hsc; simpa using this
+        refine ⟨?_, by simp; omega⟩
+        have := Skips.one hsc; simpa using this
     | some j =>
       simp only [hcr, hlf] at hstop ⊢
       obtain ⟨x2, y2, hb2, hx2l, hx2n⟩ := memchr_split LF buf j hlf
@@ -661,7 +681,7 @@ theorem verdict_agrees (buf : List Byte) (src : Src) (hm : buf.length ≤ win) (
         -- reader gets to the same place
         have einval : ∀ q : Nat, 1 ≤ q → q ≤ buf.length →
             ((q == bufSize - 1 && buf[q - 1]? == some CR) = false) →
-            goodLines (buf ++ src.rest) = goodLines ((buf ++ src.rest).drop q) →
+            Skips (buf ++ src.rest) ((buf ++ src.rest).drop q) →
             Agrees (buf ++ src.rest)
               (if (false : Bool) = true then (Rd.line (buf.take (q - 2)), buf.drop q, src)
                else if (q == bufSize - 1 && buf[q - 1]? == some CR) = true then loopLong src (src.rest.length + 1)
@@ -670,8 +690,7 @@ theorem verdict_agrees (buf : List Byte) (src : Src) (hm : buf.length ≤ win) (
           simp only [Bool.false_eq_true, if_false, hmid]
           have hd : (buf ++ src.rest).drop q = buf.drop q ++ src.rest := List.drop_append_of_le_length hq
           rw [hd] at hgl
-          refine ⟨hgl, by simp only [List.length_drop]; omega, ?_⟩
-          simp only [List.length_append, List.length_drop]; omega
+          exact ⟨hgl, by simp only [List.length_drop]; omega⟩
         have hpj : (buf ++ src.rest)[j]? = some LF := by rw [hpbuf j hjl]; exact hbj
         have hpi : (buf ++ src.rest)[i]? = some CR := by rw [hpbuf i hil]; exact hbi
         by_cases hlt : i < j
@@ -721,9 +740,9 @@ theorem verdict_agrees (buf : List Byte) (src : Src) (hm : buf.length ≤ win) (
               have hp : buf ++ src.rest = x ++ CR :: b :: (y' ++ src.rest) := by rw [hb]; simp
               have hsc := scan_cr x (y' ++ src.rest) b hxno hbne (by omega)
               rw [← hp] at hsc
-              rw [goodLines_skip _ _ hsc]
-              congr 1
-              rw [hp, ← hxl]; exact (drop_split x _ CR).symm
+              have hdq : (buf ++ src.rest).drop (i + 1) = b :: (y' ++ src.rest) := by
+                rw [hp, ← hxl]; exact drop_split x _ CR
+              rw [hdq]; exact .one hsc
         · have hji : j < i := by omega
           simp only [hlt, if_false]
           by_cases hfar : i + 2 < buf.length ∧ buf[i + 1]? ≠ some LF
@@ -756,9 +775,9 @@ theorem verdict_agrees (buf : List Byte) (src : Src) (hm : buf.length ≤ win) (
               have hp : buf ++ src.rest = x2 ++ LF :: (y2 ++ src.rest) := by rw [hb2]; simp
               have hsc := scan_lf x2 (y2 ++ src.rest) hx2no (by omega)
               rw [← hp] at hsc
-              rw [goodLines_skip _ _ hsc]
-              congr 1
-              rw [hp, ← hx2l]; exact (drop_split x2 _ LF).symm
+              have hdq : (buf ++ src.rest).drop (j + 1) = y2 ++ src.rest := by
+                rw [hp, ← hx2l]; exact drop_split x2 _ LF
+              rw [hdq]; exact .one hsc
 
 end QsmtpModel.Netio
 
@@ -1055,11 +1074,357 @@ theorem readAll_refines (fatal : Bool) : ∀ (fuel : Nat) (inn : List Byte) (src
       | econnreset => simp only [linesOf]; exact hag.symm
       | einval =>
         simp only [linesOf]
-        obtain ⟨h1, h2, h3⟩ := hag
-        rw [h1, ih inn' src' h2 (by omega)]
+        obtain ⟨h1, h2⟩ := hag
+        have h3 := h1.shrinks
+        rw [h1.goodLines_eq, ih inn' src' h2 (by omega)]
       | e2big =>
         simp only [linesOf]
-        obtain ⟨h1, h2, h3⟩ := hag
-        rw [h1, ih inn' src' h2 (by omega)]
+        obtain ⟨h1, h2⟩ := hag
+        have h3 := h1.shrinks
+        rw [h1.goodLines_eq, ih inn' src' h2 (by omega)]
+
+end QsmtpModel.Netio
+
+/-! ## The DATA phase on the byte stream alone -/
+
+namespace QsmtpModel.Netio
+open QsmtpModel
+
+/-- shape of a line step: the stream is the line, CRLF, the rest -/
+theorem scan_line_shape (p l r : List Byte) (h : scan p = .line l r) :
+    p = l ++ CR :: LF :: r ∧ NoEol l ∧ l.length + 1 < win := by
+  unfold scan at h
+  split at h
+  · split at h
+    · cases h
+    · unfold discard at h; split at h <;> cases h
+  · rename_i k hk
+    obtain ⟨x, e, y, hw, hxl, hxn, heE⟩ := findIdx_some_split _ k hk
+    have hp : p = x ++ e :: (y ++ p.drop win) := by
+      have := List.take_append_drop win p
+      rw [hw] at this
+      simpa using this.symm
+    have hkw : k < win := by
+      have := findIdx_lt _ _ hk; simp only [List.length_take] at this; omega
+    split at h
+    · cases h
+    · rename_i hnlf
+      split at h
+      · unfold discard at h; split at h <;> cases h
+      · rename_i hk1
+        split at h
+        · cases h
+        · rename_i b hb
+          split at h
+          · rename_i hbl
+            subst hbl
+            simp only [Scan.line.injEq] at h
+            obtain ⟨rfl, rfl⟩ := h
+            have hpk : p[k]? = some e := by rw [hp, ← hxl]; simp
+            have heCR : e = CR := by
+              rcases eol_cases e heE with h1 | h1
+              · exact h1
+              · rw [h1] at hpk; exact absurd hpk hnlf
+            subst heCR
+            have htake : p.take k = x := by
+              conv => lhs; rw [hp]
+              rw [← hxl]; simp
+            have hrest : y ++ p.drop win = LF :: p.drop (k + 2) := by
+              have h1 : p.drop (k + 1) = y ++ p.drop win := by
+                conv => lhs; rw [hp]
+                rw [← hxl]; exact drop_split x _ CR
+              have h2 : (p.drop (k + 1))[0]? = some LF := by rw [List.getElem?_drop]; simpa using hb
+              rw [← h1]
+              cases hd : p.drop (k + 1) with
+              | nil => rw [hd] at h2; simp at h2
+              | cons c cs =>
+                rw [hd] at h2; simp at h2
+                have : p.drop (k + 2) = cs := by
+                  have := congrArg (List.drop 1) hd
+                  rw [List.drop_drop] at this
+                  simpa using this
+                rw [h2, this]
+            refine ⟨?_, by rw [htake]; exact hxn, by rw [htake, hxl]; omega⟩
+            rw [htake]
+            conv => lhs; rw [hp, hrest]
+          · cases h
+
+theorem frame_fuel_aux (n : Nat) : ∀ (p : List Byte), p.length ≤ n → ∀ (f g : Nat) (dr : Bool) (acc : List (List Byte)),
+    p.length < f → p.length < g → (frameData f p dr acc).same (frameData g p dr acc) := by
+  induction n with
+  | zero =>
+    intro p hp f g dr acc hf hg
+    have hp0 : p = [] := List.length_eq_zero_iff.mp (by omega)
+    subst hp0
+    cases f with
+    | zero => simp at hf
+    | succ f =>
+      cases g with
+      | zero => simp at hg
+      | succ g =>
+        have : scan ([] : List Byte) = .dead := by decide
+        simp only [frameData, this]
+        exact ⟨rfl, rfl, fun _ => rfl⟩
+  | succ n ih =>
+    intro p hp f g dr acc hf hg
+    cases f with
+    | zero => omega
+    | succ f =>
+      cases g with
+      | zero => omega
+      | succ g =>
+        simp only [frameData]
+        cases hs : scan p with
+        | dead => exact ⟨rfl, rfl, fun _ => rfl⟩
+        | skip r =>
+          have := (scan_shrinks p).1 r hs
+          exact ih r (by omega) f g true acc (by omega) (by omega)
+        | line l r =>
+          have := (scan_shrinks p).2 l r hs
+          simp only
+          split
+          · exact ⟨rfl, rfl, fun _ => rfl⟩
+          · exact ih r (by omega) f g dr _ (by omega) (by omega)
+
+theorem frame_fuel (p : List Byte) (f g : Nat) (dr : Bool) (acc : List (List Byte)) (hf : p.length < f) (hg : p.length < g) :
+    (frameData f p dr acc).same (frameData g p dr acc) :=
+  frame_fuel_aux p.length p (Nat.le_refl _) f g dr acc hf hg
+
+theorem Frame.same_trans {a b c : Frame} (h1 : a.same b) (h2 : b.same c) : a.same c := by
+  obtain ⟨v1, l1, r1⟩ := h1
+  obtain ⟨v2, l2, r2⟩ := h2
+  exact ⟨v1.trans v2, l1.trans l2, fun h => (r1 h).trans (r2 (v1 ▸ h))⟩
+
+theorem Frame.same_symm {a b : Frame} (h : a.same b) : b.same a :=
+  ⟨h.1.symm, h.2.1.symm, fun hv => (h.2.2 (h.1 ▸ hv)).symm⟩
+
+/-- a skipped stretch: the frame of `p` is the frame of what follows, in draining mode -/
+theorem frame_skips {p q : List Byte} (h : Skips p q) (dr : Bool) (acc : List (List Byte)) (f g : Nat)
+    (hf : p.length < f) (hg : q.length < g) : (frameData f p dr acc).same (frameData g q true acc) := by
+  induction h generalizing f dr with
+  | one hs =>
+    cases f with
+    | zero => omega
+    | succ f =>
+      have := (scan_shrinks _).1 _ hs
+      simp only [frameData, hs]
+      exact frame_fuel _ f g true acc (by omega) hg
+  | more hs hrest ih =>
+    cases f with
+    | zero => omega
+    | succ f =>
+      have := (scan_shrinks _).1 _ hs
+      simp only [frameData, hs]
+      exact ih true f (by omega) hg
+
+/-- a stream without lines: the phase dies, nothing is added -/
+theorem frame_no_lines (n : Nat) : ∀ (p : List Byte), p.length ≤ n → goodLines p = [] → ∀ (f : Nat) (dr : Bool) (acc : List (List Byte)),
+    (frameData f p dr acc).verdict = .died ∧ (frameData f p dr acc).lines = acc := by
+  induction n with
+  | zero =>
+    intro p hp _ f dr acc
+    have hp0 : p = [] := List.length_eq_zero_iff.mp (by omega)
+    subst hp0
+    cases f with
+    | zero => exact ⟨rfl, rfl⟩
+    | succ f =>
+      have : scan ([] : List Byte) = .dead := by decide
+      simp [frameData, this]
+  | succ n ih =>
+    intro p hp hg f dr acc
+    cases f with
+    | zero => exact ⟨rfl, rfl⟩
+    | succ f =>
+      simp only [frameData]
+      cases hs : scan p with
+      | dead => exact ⟨rfl, rfl⟩
+      | skip r =>
+        have := (scan_shrinks p).1 r hs
+        rw [goodLines_skip _ _ hs] at hg
+        exact ih r (by omega) hg f true acc
+      | line l r =>
+        rw [goodLines_line _ _ _ hs] at hg
+        cases hg
+
+end QsmtpModel.Netio
+
+namespace QsmtpModel.Netio
+open QsmtpModel QsmtpModel.DataFraming
+
+theorem loopLong_no_econnreset_err : ∀ (fuel : Nat) (src : Src), (loopLong src fuel).1 ≠ .err .econnreset := by
+  intro fuel
+  induction fuel with
+  | zero => intro src; simp [loopLong]
+  | succ n ih =>
+    intro src
+    unfold loopLong
+    simp only
+    split
+    · simp
+    · split
+      · simp
+      · exact ih _
+
+theorem verdict_no_econnreset_err (buf : List Byte) (src : Src) : (verdict buf src).1 ≠ .err .econnreset := by
+  unfold verdict
+  split
+  · exact loopLong_no_econnreset_err _ _
+  · split
+    · simp
+    · split
+      · exact loopLong_no_econnreset_err _ _
+      · simp
+
+/-- in fatal mode (the DATA phase) the end of the connection is never an ordinary error result -/
+theorem netRead_fatal_no_econnreset_err (inn : List Byte) (src : Src) : (netRead true inn src).1 ≠ .err .econnreset := by
+  unfold netRead
+  split
+  · rename_i r inn' x hp
+    unfold phase1 at hp
+    split at hp
+    · cases hp
+    · split at hp
+      · split at hp
+        · simp only [Prod.mk.injEq, Option.some.injEq] at hp; rw [← hp.1.1]; simp
+        · split at hp
+          · cases hp
+          · simp only [Prod.mk.injEq, Option.some.injEq] at hp; rw [← hp.1.1]; simp
+      · cases hp
+  · split
+    · simp
+    · exact verdict_no_econnreset_err _ _
+
+def toFrameEnd : End → FrameEnd
+  | .queued => .queued
+  | .refused => .refused
+  | .died => .died
+
+/-- the outcome of the model's DATA phase is the frame `F` of the stream -/
+def Matches (o : Outcome) (F : Frame) : Prop :=
+  toFrameEnd o.verdict = F.verdict ∧ o.lines = F.lines ∧
+    (o.verdict ≠ .died → o.inn ++ o.src.rest = F.rest ∧ o.inn.length < win)
+
+theorem Matches.of_same {o : Outcome} {F F' : Frame} (h : Matches o F') (hs : F.same F') : Matches o F := by
+  obtain ⟨h1, h2, h3⟩ := h
+  obtain ⟨s1, s2, s3⟩ := hs
+  refine ⟨h1.trans s1.symm, h2.trans s2.symm, fun hd => ?_⟩
+  obtain ⟨h4, h5⟩ := h3 hd
+  refine ⟨h4.trans (s3 ?_).symm, h5⟩
+  rw [s1, ← h1]
+  intro he
+  apply hd
+  cases hv : o.verdict <;> rw [hv] at he <;> first | rfl | cases he
+
+/-- **The DATA phase refines its specification**: for every stream, look-ahead state, cut schedule
+and mode, where the phase ends, whether the message can be queued, which lines make up the message
+and what is left for the command loop are those of `frameData` on the bytes alone. -/
+theorem dataPhase_refines : ∀ (fuel : Nat) (inn : List Byte) (src : Src) (dr : Bool) (acc : List (List Byte))
+    (errs : Nat) (lastErr : Bool) (first : Option Errno),
+    inn.length < win → (inn ++ src.rest).length < fuel →
+    Matches (dataPhase inn src dr acc errs lastErr first fuel)
+      (frameData ((inn ++ src.rest).length + 1) (inn ++ src.rest) dr acc) := by
+  intro fuel
+  induction fuel with
+  | zero => intro inn src dr acc errs lastErr first _ h; omega
+  | succ fuel ih =>
+    intro inn src dr acc errs lastErr first hinn hf
+    have hag := netRead_agrees true inn src hinn
+    have hne := netRead_fatal_no_econnreset_err inn src
+    unfold dataPhase
+    generalize netRead true inn src = res at hag hne
+    obtain ⟨r, inn', src'⟩ := res
+    cases r with
+    | die e =>
+      simp only
+      have hg : goodLines (inn ++ src.rest) = [] := hag
+      obtain ⟨h1, h2⟩ := frame_no_lines _ _ (Nat.le_refl _) hg ((inn ++ src.rest).length + 1) dr acc
+      exact ⟨by rw [h1]; rfl, h2.symm, fun h => absurd rfl h⟩
+    | err e =>
+      cases e with
+      | econnreset => exact absurd rfl hne
+      | einval =>
+        simp only
+        obtain ⟨hsk, hi⟩ := hag
+        have hsh := hsk.shrinks
+        exact (ih inn' src' true acc (errs + 1) true _ hi (by omega)).of_same
+          (frame_skips hsk dr acc _ _ (Nat.lt_succ_self _) (Nat.lt_succ_self _))
+      | e2big =>
+        simp only
+        obtain ⟨hsk, hi⟩ := hag
+        have hsh := hsk.shrinks
+        exact (ih inn' src' true acc (errs + 1) true _ hi (by omega)).of_same
+          (frame_skips hsk dr acc _ _ (Nat.lt_succ_self _) (Nat.lt_succ_self _))
+    | line l =>
+      simp only
+      obtain ⟨hsc, hi⟩ := hag
+      have hsh := (scan_shrinks _).2 l _ hsc
+      simp only [frameData, hsc]
+      by_cases hl : l = [DOT]
+      · rw [if_pos hl, if_pos hl]
+        refine ⟨?_, rfl, fun _ => ⟨rfl, hi⟩⟩
+        cases dr <;> rfl
+      · rw [if_neg hl, if_neg hl]
+        exact (ih inn' src' dr _ errs false first hi (by omega)).of_same
+          (frame_fuel _ _ _ dr _ (by omega) (Nat.lt_succ_self _))
+
+end QsmtpModel.Netio
+
+namespace QsmtpModel.Netio
+open QsmtpModel QsmtpModel.DataFraming
+
+/-- once a stretch was skipped the message is never queued -/
+theorem frame_draining_not_queued : ∀ (f : Nat) (p : List Byte) (acc : List (List Byte)),
+    (frameData f p true acc).verdict ≠ .queued ∧ (frameData f p true acc).lines = acc := by
+  intro f
+  induction f with
+  | zero => intro p acc; exact ⟨by simp [frameData], rfl⟩
+  | succ f ih =>
+    intro p acc
+    simp only [frameData]
+    cases hs : scan p with
+    | dead => exact ⟨by simp, rfl⟩
+    | skip r => exact ih r acc
+    | line l r =>
+      simp only
+      split
+      · exact ⟨by simp, rfl⟩
+      · exact ih r acc
+
+/-- **What a queued message looks like on the wire.**  If the frame of a stream says "queued", the
+stream is exactly: the queued lines, each free of CR and LF, shorter than the window and followed by
+CRLF; then `.` CRLF; then the rest.  No other stream is ever queued. -/
+theorem frame_queued_shape : ∀ (f : Nat) (p : List Byte) (acc : List (List Byte)),
+    (frameData f p false acc).verdict = .queued →
+    ∃ new, (frameData f p false acc).lines = acc ++ new ∧
+      p = wire new ++ DOT :: CR :: LF :: (frameData f p false acc).rest ∧
+      ∀ l ∈ new, NoEol l ∧ l ≠ [DOT] ∧ l.length + 1 < win := by
+  intro f
+  induction f with
+  | zero => intro p acc h; simp [frameData] at h
+  | succ f ih =>
+    intro p acc h
+    simp only [frameData] at h ⊢
+    cases hs : scan p with
+    | dead => rw [hs] at h; simp at h
+    | skip r => rw [hs] at h; exact absurd h (frame_draining_not_queued f r acc).1
+    | line l r =>
+      rw [hs] at h
+      simp only at h ⊢
+      obtain ⟨hp, hno, hlen⟩ := scan_line_shape p l r hs
+      by_cases hl : l = [DOT]
+      · rw [if_pos hl] at h ⊢
+        refine ⟨[], by simp, ?_, by simp⟩
+        rw [hp, hl]; simp [wire]
+      · rw [if_neg hl] at h ⊢
+        simp only [Bool.false_eq_true, if_false] at h ⊢
+        obtain ⟨new, h1, h2, h3⟩ := ih r (acc ++ [l]) h
+        refine ⟨l :: new, by rw [h1]; simp, ?_, ?_⟩
+        · rw [hp]
+          conv => lhs; rw [h2]
+          simp [wire]
+        · intro x hx
+          rcases List.mem_cons.mp hx with rfl | hx
+          · exact ⟨hno, hl, hlen⟩
+          · exact h3 x hx
 
 end QsmtpModel.Netio
